@@ -346,6 +346,14 @@ impl TimerSys {
     }
 
     pub fn apply(&mut self, a: &TAct) -> Result<(), String> {
+        let r = std::panic::catch_unwind(std::panic::AssertUnwindSafe(|| self.apply_inner(a)));
+        match r {
+            Ok(x) => x,
+            Err(_) => Err(format!("{}: the emulator panicked @ {}", a.text(), crate::hv::panics::take_last_location())),
+        }
+    }
+
+    fn apply_inner(&mut self, a: &TAct) -> Result<(), String> {
         let (n_states, reps): (u32, u32) = match *a {
             TAct::Elapse(n) => (n as u32, 1),
             TAct::Long(k) => (255, k as u32),
